@@ -255,7 +255,9 @@ func init() {
 	atomAdd := func(in *Interp, fr *Frame, args []Value, call *ssa.CallCommon) Value {
 		et := call.Args[0].Type().Underlying().(*types.Pointer).Elem()
 		nv := tBin(OpAdd, in.load(et, args[0]).(*Term), args[1].(*Term))
+		in.atomicW++ // synchronised write: not a race, counted apart by the shared-write monitor
 		in.store(et, args[0], nv)
+		in.atomicW--
 		return nv
 	}
 	atomSwap := func(in *Interp, fr *Frame, args []Value, call *ssa.CallCommon) Value {
